@@ -59,15 +59,16 @@ Section InplaceRun.
      is invalidated by a: a single write *)
   Lemma mutate_attr_inplace_exact l a v tc force skip s c d k r s' :
     nth_error (heap s) l = Some (OInst c d) -> lookup_cls ct c = Some k -> c_dnc k = false ->
-    negb (force || initializing d) && c_frozen k = false ->
     is_sentinel v = false -> no_dependants k a ->
     mutate_attr ct rec l a v true tc force skip s = (Ok r, s') ->
     r = VRef l /\ s' = upd s l (OInst c (assoc_set a v d)).
   Proof.
-    intros Hl Hc Hdnc Hf Hv Hnd. unfold mutate_attr. rewrite Hv.
+    intros Hl Hc Hdnc Hv Hnd. unfold mutate_attr. rewrite Hv.
     rewrite (bind_ok _ _ _ _ _ (read_inst_at l s c d Hl)). cbn [fst snd].
     rewrite (bind_ok _ _ _ _ _ (cls_of_at ct s c k Hc)).
-    rewrite andb_true_r, Hf. rewrite bind_ret_l'.
+    destruct (negb (force || initializing d) && true && c_frozen k).
+    { rewrite bind_err with (e := FrozenErr) (s1 := s) by reflexivity. discriminate. }
+    rewrite bind_ret_l'.
     destruct (type_check_cases ct k a v tc s) as [E|E]; cbv zeta in E.
     2:{ rewrite (bind_err _ _ _ _ _ E). discriminate. }
     rewrite (bind_ok _ _ _ _ _ E). cbv zeta. rewrite Hdnc. cbn [orb negb andb]. rewrite !bind_ret_l'.
@@ -159,7 +160,7 @@ Section ResetFresh.
     assert (Hl1 : nth_error (heap s1) l = Some (OInst c d)).
     { destruct I1 as (_ & Old & _). destruct (Old l Hlb) as [[]|E]. rewrite E. exact Hl. }
     destruct (mutate_attr_inplace_exact ct rec l a v true true false s1 c d k r s' Hl1 Hc (no_dnc c k Hc)
-                eq_refl Hns Hnd H4) as [-> ->].
+                Hns Hnd H4) as [-> ->].
     assert (Hlen1 : l < length (heap s1)) by (apply nth_error_Some; congruence).
     exists v. split; [unfold upd; simpl; now apply nth_error_set_nth_same|]. split; [exact Hns|].
     assert (Hfresh : freshv b v).
